@@ -385,6 +385,8 @@ def _check(ctx: Ctx) -> None:
             ok = True
     ctx.check(ok, "CLOSE", "tokenise: a partly filled last bar is closed with rests up to its capacity", function=fe.qualname,
               construct="end-of-call bar closing missing or with a different condition/amount", message="", file=fe.file, node=fe.node)
+    from .c03 import close_rule
+    close_rule(ctx, "CLOSE")
     # merge + pairing types
     pr_call = next((c for c in ast.walk(fe.node) if isinstance(c, ast.Call) and call_method(c)[1] == "get_interleaved_message_pairings"), None)
     types = [enum_member(e, "MessageType") for e in pr_call.args[0].elts] if pr_call is not None and pr_call.args and isinstance(pr_call.args[0], ast.List) else []
